@@ -28,6 +28,12 @@ impl KeyCtx {
         let (key, nonce) = rc.get_encrypt_parameters().expect("params");
         KeyCtx { cfg, header: b.bytes[..h.header_len].to_vec(), key, nonce }
     }
+    /// from a replay case holding "cfg", "header", "key", "nonce"
+    pub fn from_json(c: &serde_json::Value) -> KeyCtx {
+        let mut key = [0u8; 32]; key.copy_from_slice(&unhx(&c["key"])[..32]);
+        let mut nonce = [0u8; 8]; nonce.copy_from_slice(&unhx(&c["nonce"])[..8]);
+        KeyCtx { cfg: Cfg::from_json(&c["cfg"]), header: unhx(&c["header"]), key, nonce }
+    }
     pub fn reader_config(&self) -> ArchiveReaderConfig {
         let mut rc = self.cfg.reader_config();
         let hdr = ArchiveHeader::from(&mut &self.header[..]).expect("header parse");
